@@ -13,7 +13,7 @@
 EXTENDS Integers, Sequences, FiniteSets, TLC, Json
 
 CONSTANTS T,         \* session timeout
-          MOO, AL, MaxTs, MaxEv, Keys, ChanCap,
+          MOO, AL, MaxTs, MaxEv, Keys, ChanCap, LateAnyKey,
           DevMerge,  \* admit "SessionMergeAcrossGap"
           DevStart,  \* admit "SessionStartFirstArrival"
           Emit
@@ -50,7 +50,8 @@ Add(k, ts) ==
          send == wm1 > wmSent /\ Len(wmChan) < ChanCap
          late == ts < wm1
          s    == sess[k]
-         oi   == {i \in 1..Len(open) : open[i].start <= ts /\ ts < open[i].end}   \* handleLateData: any key
+         \* handleLateData: the triggered session of the row's own key (LateAnyKey = TRUE: the code before the repair took any key's)
+         oi   == {i \in 1..Len(open) : open[i].start <= ts /\ ts < open[i].end /\ (LateAnyKey \/ open[i].key = k)}
      IN
      /\ maxTs' = NewMax(ts) /\ wmCur' = wm1
      /\ wmSent' = IF send THEN wm1 ELSE wmSent
@@ -126,6 +127,7 @@ BatchOK(i) ==
   /\ Len(b.ids) > 0
   /\ \A k, l \in 1..Len(b.ids) : k # l => b.ids[k] # b.ids[l]
   /\ b.maxAt >= b.end + MOO                                        \* delivered only after the watermark passed the end
+  /\ \A id \in SeqSet(b.ids) : emitted[id].key = b.key             \* first firing or late update: only the key's own events
   /\ (b.kind = "first" =>
         /\ \A id \in SeqSet(b.ids) : emitted[id].key = b.key /\ ~emitted[id].late
         /\ b.end = MaxTsOf(S) + T
